@@ -11,6 +11,7 @@ package p9
 
 import (
 	"bytes"
+	"encoding/binary"
 	"encoding/hex"
 	"fmt"
 	"io"
@@ -58,6 +59,8 @@ func vh18Reuse(o *vhOut, ty msgType, wire []byte, last *message, what string) {
 // ---- recording backend -------------------------------------------------------
 
 type vh18Call struct {
+	dirty int // non-zero bytes in the whole buffer the server handed to ReadAt
+	lazy  bool
 	conn  int
 	op    string
 	names []string
@@ -158,13 +161,27 @@ func (f *vh18File) Close() error { return nil }
 func (f *vh18File) Renamed(newDir File, newName string) {}
 
 // ReadAt: the offset encodes how many bytes to produce and with which pattern.
+// Bit 62 of the offset makes it a lazy backend: it reports n bytes but writes only the first half,
+// relying on the buffer being zero (a hole in a sparse file); what it means is its bytes followed by zeros.
 func (f *vh18File) ReadAt(p []byte, offset int64) (int, error) {
+	dirty := 0
+	for _, c := range p[:cap(p)] {
+		if c != 0 {
+			dirty++
+		}
+	}
 	n := int(uint64(offset) >> 16 & 0xffffff)
 	if n > len(p) {
 		n = len(p)
 	}
-	copy(p, vh01Pattern(n, byte(offset), byte(offset>>8)|1))
-	f.w.add(vh18Call{conn: f.conn, op: "read", data: append([]byte(nil), p[:n]...), off: uint64(offset), count: uint32(len(p))})
+	lazy := uint64(offset)>>62&1 == 1
+	w := n
+	if lazy {
+		w = n / 2
+	}
+	copy(p, vh01Pattern(w, byte(offset), byte(offset>>8)|1))
+	meant := append(append([]byte(nil), p[:w]...), make([]byte, n-w)...)
+	f.w.add(vh18Call{conn: f.conn, op: "read", data: meant, off: uint64(offset), count: uint32(len(p)), dirty: dirty, lazy: lazy})
 	if n < len(p) {
 		return n, io.EOF
 	}
@@ -341,6 +358,74 @@ func TestVerifC18(t *testing.T) {
 		}
 	}
 
+	// (a2) poisoned pool: the decode buffer recv gets from dataPool is pre-filled with a marker; complete
+	// frames and frames whose body is shorter than their type needs (size field consistent) are received
+	// twice, after two different markers.  The outcome must not depend on the marker.
+	poison := func(marker byte) {
+		pb := bytes.Repeat([]byte{marker}, 8192)
+		dataPool.Put(&pb)
+	}
+	for _, ty := range types {
+		for rep := 0; rep < rounds; rep++ {
+			m := msgDotLRegistry.factories[ty].create()
+			g := &vh01Gen{r: r, profile: []string{"max", "random", "longlist"}[rep%3], listLen: 3}
+			g.fill(reflect.ValueOf(m).Elem())
+			base := vh18Frame(m, tag(r.Intn(65536)))
+			body := len(base) - 7
+			for _, k := range []int{body, 0, 1, body / 2, body - 1, body - 4} {
+				if k < 0 || k > body || (k == body && rep > 0) {
+					continue
+				}
+				x := append([]byte(nil), base[:7+k]...)
+				binary.LittleEndian.PutUint32(x, uint32(len(x)))
+				poison(0xa5)
+				tg, m1, err := recv(ulog.Null, bytes.NewReader(x), maximumLength, fresh)
+				ra := vh01Result(tg, m1, err)
+				poison(0x5a)
+				tg, m2, err := recv(ulog.Null, bytes.NewReader(x), maximumLength, fresh)
+				rb := vh01Result(tg, m2, err)
+				o.Emit(map[string]interface{}{"k": "cut", "what": "poison", "typ": uint8(ty), "msize": maximumLength, "at": k, "wire": hex.EncodeToString(x), "a": ra, "b": rb})
+			}
+		}
+	}
+
+	// (a3) list decoders and a count the body does not back: how many elements were appended to the
+	// (rejected) object.  The frame is a real one with [present] elements whose count field is raised to n.
+	for _, ty := range types {
+		m0 := msgDotLRegistry.factories[ty].create()
+		var list reflect.Value
+		rv := reflect.ValueOf(m0).Elem()
+		for i := 0; i < rv.NumField(); i++ {
+			if f := rv.Field(i); f.Kind() == reflect.Slice && f.Type().Elem().Kind() != reflect.Uint8 && rv.Type().Field(i).Name != "Entries" {
+				list = f
+			}
+		}
+		if !list.IsValid() {
+			continue
+		}
+		countOff := len(vh18Frame(m0, 1)) - 2 // the list is the last field: its count[2] ends the empty message
+		for _, present := range []int{0, 1, 2} {
+			for _, n := range []int{present + 1, 1000, 65535} {
+				m := msgDotLRegistry.factories[ty].create()
+				g := &vh01Gen{r: r, profile: "longlist", listLen: present}
+				g.fill(reflect.ValueOf(m).Elem())
+				x := vh18Frame(m, 5)
+				binary.LittleEndian.PutUint16(x[countOff:], uint16(n))
+				obj := msgDotLRegistry.factories[ty].create()
+				tg, mm, err := recv(ulog.Null, bytes.NewReader(x), maximumLength, func(tag, msgType) (message, error) { return obj, nil })
+				res := vh01Result(tg, mm, err)
+				ov := reflect.ValueOf(obj).Elem()
+				appended := 0
+				for i := 0; i < ov.NumField(); i++ {
+					if f := ov.Field(i); f.Kind() == reflect.Slice && f.Type().Elem().Kind() != reflect.Uint8 {
+						appended = f.Len()
+					}
+				}
+				o.Emit(map[string]interface{}{"k": "over", "typ": uint8(ty), "n": n, "present": present, "appended": appended, "res": res["r"], "wire": hex.EncodeToString(x)})
+			}
+		}
+	}
+
 	// (b) two connections to one server
 	w := &vh18World{}
 	srv := NewServer(&vh18Attacher{w: w})
@@ -379,7 +464,7 @@ func TestVerifC18(t *testing.T) {
 	ops := []vh18Op{
 		{"walk", 12, 30}, {"walk", 1, 1}, {"walk", 0, 0}, {"walk", 5, 200}, {"walk", 2, 3},
 		{"write", big, 1}, {"write", 5, 2}, {"write", 0, 0}, {"write", big + 4000, 3}, {"write", big, 4}, {"write", 1, 5},
-		{"read", big - 1000, 7}, {"read", 3, 9}, {"read", 0, 0}, {"read", big - 1000, 11}, {"read", 100, 13},
+		{"read", big - 1000, 7}, {"read-lazy", 600, 9}, {"read", 3, 9}, {"read", 0, 0}, {"read", big - 1000, 11}, {"read-lazy", 5000, 3}, {"read", 100, 13},
 		{"readdir", 40, 9}, {"readdir", 2, 1}, {"readdir", 0, 0}, {"readdir", 200, 30}, {"readdir", 1, 39},
 		{"readdir-exact", 1, 4}, {"readdir-exact", 3, 0}, {"readdir-exact", 17, 11},
 		{"walkgetattr", 10, 17}, {"walkgetattr", 1, 2}, {"walkgetattr", 0, 0},
@@ -412,8 +497,11 @@ func TestVerifC18(t *testing.T) {
 			off := uint64(r.Int63())
 			return pending{op: op, tag: p.send(&twrite{fid: 2, Offset: off, Data: data}),
 				sent: []interface{}{[]interface{}{"off", off}, []interface{}{"data", vh01Bytes{hex.EncodeToString(data)}}}}
-		case "read":
+		case "read", "read-lazy":
 			off := uint64(op.n)<<16 | uint64(op.l)<<8 | uint64(p.id*37+op.l)
+			if op.kind == "read-lazy" {
+				off |= 1 << 62
+			}
 			return pending{op: op, tag: p.send(&tread{fid: 2, Offset: off, Count: uint32(op.n + 10)})}
 		default: // readdir; -exact: Count is exactly the size of the n entries the backend has
 			off := uint64(op.n)<<8 | uint64(op.l)
@@ -457,12 +545,14 @@ func TestVerifC18(t *testing.T) {
 			vh18Srv(o, "write", p.id, append(q.sent, []interface{}{"count", uint64(q.op.n)}),
 				[]interface{}{[]interface{}{"off", cs[0].off}, []interface{}{"data", vh01Bytes{hex.EncodeToString(cs[0].data)}},
 					[]interface{}{"count", uint64(m.(*rwrite).Count)}})
-		case "read":
+		case "read", "read-lazy":
 			cs := w.take(p.id, "read")
 			if len(cs) != 1 {
 				panic("read: backend calls != 1")
 			}
-			vh18Srv(o, "read", p.id, []interface{}{[]interface{}{"data", vh01Bytes{hex.EncodeToString(cs[0].data)}}},
+			// the buffer handed to the backend must hold nothing of an earlier reply
+			vh18Srv(o, "read-handover", p.id, []interface{}{[]interface{}{"nonzero", uint64(0)}}, []interface{}{[]interface{}{"nonzero", uint64(cs[0].dirty)}})
+			vh18Srv(o, q.op.kind, p.id, []interface{}{[]interface{}{"data", vh01Bytes{hex.EncodeToString(cs[0].data)}}},
 				[]interface{}{[]interface{}{"data", vh01Bytes{hex.EncodeToString(m.(*rread).Data)}}})
 		default:
 			cs := w.take(p.id, "readdir")
